@@ -57,7 +57,7 @@ def drive_fx(args):
     seed, i, tier = args
     rng = rng_for(seed, f'c02fx-{i}')
     linear = i % 3 == 0
-    a = AG.gen_fx_recursive(rng, linear=linear, max_q=None if i % 7 == 6 else 0.95)
+    a = AG.gen_fx_recursive(rng, linear=linear, max_q=None if i % 7 == 6 else 0.95, patterned=(i % 4 == 1))
     runs = []
     combos = []
     for kind in ('real', 'log'):
@@ -75,7 +75,7 @@ def drive_fx(args):
         # of values by max(value) (e^tol - 1): the absolute tolerance handed to the judge is scaled accordingly
         scale = 1.0 if kind == 'real' else 1.01 * max(max(v) for v in a['cert'].values()) / AG.FXS
         runs.append(one_run(lambda: AG.build_fgg_fx(a, kind, dtype)[0], kind, 'fx', method, tol, kmax, dtype, proj, max(scale, 1.0) if kind == 'log' else 1.0))
-    return {'ag': {k: a[k] for k in ('nls', 'els', 'start', 'rules', 'wfx', 'cert')}, 'runs': runs, 'q_hint': a['q_hint']}
+    return {'ag': {k: a[k] for k in ('nls', 'els', 'start', 'rules', 'wfx', 'cert')}, 'runs': runs, 'q_hint': a['q_hint'], 'patterned': a['patterned_eq']}
 
 
 def drive_exact(args):
